@@ -13,13 +13,15 @@ META = {
                  "index-set specification",
     "text": "RuisImpl.tla (RobustUniqueIndexSet: cells + generation counter, acquire / release / lock-if-last, C11Mem, "
             "orderings extracted, atomic-level conformance) is model-checked for Exclusive, HeldIsMarked, LockIsFinal, "
-            "LockedIsEmpty, NoAcquireAfterLock, FullOnlyWhenFull. "
+            "LockedIsEmpty, NoAcquireAfterLock, FullOnlyWhenFull, UnlockedOnlyWhenOthers (the observer borrowed_indices() is an "
+            "operation of the model; whether lock() rescans after a failed locking CAS is extracted like the orderings). "
             "UisImpl.tla (one action per access of UniqueIndexSet::acquire/release, C11Mem) is model-checked for "
             "Exclusive, InRange, FreeListWellFormed, BorrowedExact, LockIsFinal with the extracted orderings; all "
             "preemption-bounded schedules of small programs on the real UniqueIndexSet, RobustUniqueIndexSet and "
             "PoolAllocator (2..3 threads, capacities 1..3) are executed under the deterministic scheduler and their "
             "call/return histories validated by TLC against IndexSetLin.tla (exclusive, bounded, fail only when full "
-            "or locked, lock is final, recover returns exactly the dead owner's indices); atomic-level traces are "
+            "or locked, lock is final, a lock-if-last release / recovery of the last index locks also when observers "
+            "(borrowed_indices, is_locked) overlap it, recover returns exactly the dead owner's indices); atomic-level traces are "
             "validated against UisImpl.tla.",
     "note": "Trusted: TLC, C11Mem simplifications, drop-in atomics, SC replay on x86, preemption bound. The robust set has "
             "its own implementation-shaped model RuisImpl.tla (acquire / release / lock-if-last; recover is covered at API "
@@ -135,27 +137,40 @@ def run(ctx):
     ctx.assumptions += ["C11Mem simplifications (see spec/lib/C11Mem.tla)", "preemption-bounded schedule enumeration",
                         "ABA tag domain 4 in the model"]
     A, R, RL = "acq", "rel0", "rell0"
+    O, IL = "obs", "il"     # observers: borrowed_indices() (on the robust set it WRITES the generation counter), is_locked()
     progs = {
         "plain": [(2, [[A, R, A], [A, RL, A]], 2), (2, [[A, A, R, R], [A, R]], 2), (1, [[A, R, A], [A, R]], 3),
                   (2, [[A, R], [A, R], [A, RL]], 2), (2, [[A, A], [A, A, R, A]], 2)],
         "robust": [(2, [[A, R, A], [A, RL, A]], 2), (2, [[A, A], [A, R], ["rec0"]], 2), (1, [[A, RL], [A, R]], 3),
-                   (2, [[A], [A, RL], ["recl0", A]], 2), (2, [[A], ["rec0"], ["rec0", A]], 2)],
+                   (2, [[A], [A, RL], ["recl0", A]], 2), (2, [[A], ["rec0"], ["rec0", A]], 2),
+                   # the release / recovery of the LAST index with lock-if-last, overlapped by observers
+                   (1, [[A, RL, A], [O, O]], 2), (1, [[A], ["recl0", A], [O]], 2)],
         "pool": [(2, [[A, R, A], [A, A, R]], 2), (1, [[A, R, A], [A, R]], 3)],
     }
     if not q:
         progs["plain"] += [(3, [[A, A, R, R], [A, RL, A], [A, R]], 2), (2, [[A, R, A, R], [A, R, A, RL]], 3)]
         progs["robust"] += [(3, [[A, A, R], [A, RL, A], [A, R]], 2), (2, [[A, A], [A, RL, A], ["recl0", A]], 3)]
         progs["pool"] += [(3, [[A, A, R], [A, R, A], [A, R]], 2)]
+        progs["plain"] += [(1, [[A, RL, A], [O, IL]], 3), (2, [[A, RL, A], [A, R], [O, O]], 2)]
+        progs["robust"] += [(1, [[A, RL], [O], [O]], 3), (2, [[A, RL, A], [O, IL, O]], 3), (1, [[A, RL], [A, RL], [O]], 2),
+                            (2, [[A, A], [A, RL], ["recl0", A], [O]], 2), (2, [[A, RL, A], [A, R], [O, IL]], 2)]
     limit = 400 if q else 30000
     tab_final, drift_any = {}, False
+    observed = {}
     bv = vp.BatchValidator(ctx, "lockfree", "IndexSetLinTrace", on_reject(ctx))
     for kind, lst in progs.items():
         for n, (cap, prog, bound) in enumerate(lst):
             tag = f"{kind}-{n}"
-            atoms = kind == "plain"
-            trace, summ = run_exec(ctx, kind, cap, prog, "dfs", bound, limit, atoms, tag)
+            atoms = kind == "plain" and not any(o in (O, IL) for t in prog for o in t)
+            has_obs = any(o in (O, IL) for t in prog for o in t)
+            # the observer programs are small (capacity 1-2): enumerate them completely also in the quick tier
+            trace, summ = run_exec(ctx, kind, cap, prog, "dfs", bound, max(limit, 1500) if has_obs else limit, atoms, tag)
             ctx.evaluations += summ["executions"]
             recs = vp.read_ndjson(trace)
+            for r in recs:
+                if r.get("k") == "ret" and r["a"] in (O, IL, "rel", "rec"):
+                    key = f"{kind}:{r['a']}:{r['r']}"
+                    observed[key] = observed.get(key, 0) + 1
             ctx.distinct += len({tuple(r["sched"]) for r in recs if r.get("k") == "end"})
             if summ["anomalies"]:
                 bad = [r for r in recs if r.get("k") == "end" and (r["outcome"] != "completed" or r["panics"])]
@@ -194,10 +209,39 @@ def run(ctx):
         # seeded random schedules of a longer program
         cap = 2
         prog = [[A, A, R, A, R, R], [A, R, A, RL if kind != "pool" else R, A], [A, R, A, R]]
+        if kind != "pool":
+            prog.append([O, IL, O, IL])
         trace, summ = run_exec(ctx, kind, cap, prog, "random", 0, 60 if q else 3000, False, f"{kind}-random")
         ctx.evaluations += summ["executions"]
         bv.add(trace, (kind, summ), summ["executions"])
     bv.run()
+    # vacuity of the trace direction: observers overlapped lock-if-last releases / recoveries, both outcomes were seen
+    ctx.coverage["api_results_observed"] = observed
+    need = ["robust:obs:ok", "robust:rel:locked", "robust:rel:unlocked", "robust:rec:locked", "robust:rec:unlocked"]
+    need += [] if q else ["plain:obs:ok", "plain:il:true", "plain:il:false", "robust:il:true", "robust:il:false"]
+    missing = [k for k in need if not observed.get(k)]
+    if missing and not (ctx.violations or ctx.known_hits):
+        raise vp.ToolError(f"vacuous: API results never observed in the recorded histories: {missing}")
+
+    # ---- selftest of the binding (thorough): corrupt one recorded field of an observer history -> must be rejected
+    if not q and not ctx.violations:
+        run0 = vp.split_runs(vp.read_ndjson(ctx.path("traces", "robust-5.ndjson")))[0]
+        for what, pick, field, val in (("count of an observation", lambda r: r.get("k") == "ret" and r["a"] == O, "v", 7),
+                                       ("result of the lock-if-last release of the last index",
+                                        lambda r: r.get("k") == "ret" and r["a"] == "rel" and r["r"] == "locked", "r", "unlocked")):
+            bad, done = [], False
+            for r in run0:
+                if not done and pick(r):
+                    r, done = dict(r, **{field: val}), True
+                bad.append(r)
+            if not done:
+                raise vp.ToolError(f"selftest: no record to corrupt ({what})")
+            f = ctx.path("traces", f"selftest-{field}.ndjson")
+            vp.write_ndjson(f, bad)
+            v = vp.tlc_trace("lockfree", "IndexSetLinTrace", f)
+            if v.accepted:
+                raise vp.ToolError(f"selftest: a history with a corrupted {what} was accepted by IndexSetLinTrace")
+        ctx.note("selftest: corrupted observer count / lock-if-last result are rejected by IndexSetLinTrace")
 
     # ---- TLC on the implementation-shaped model with the extracted orderings (V2)
     mcs = [(2, [[A, R, A], [A, R, A]]), (2, [[A, A, R, R], [A, RL]]), (1, [[A, R, A], [A, RL]]),
